@@ -151,7 +151,9 @@ pub fn render_type(t: &TypeM) -> String {
             if !it.attrs.is_empty() {
                 s.push_str(&format!("    {}\n", it.attrs));
             }
-            s.push_str(&format!("    pub {}: {},\n", it.ident, if it.optional_ty { "Option<i32>" } else { "i32" }));
+            // visibility is not serde's business: private and pub(crate) fields are serialised too
+            let vis = ["pub ", "pub ", "", "pub(crate) "][(it.ident.len() + t.items.len()) % 4];
+            s.push_str(&format!("    {}{}: {},\n", vis, it.ident, if it.optional_ty { "Option<i32>" } else { "i32" }));
         }
     }
     s.push_str("}\n\n");
@@ -431,7 +433,7 @@ fn random_types(t: &mut Tape) -> (Vec<TypeM>, &'static str) {
 pub fn run(ctx: &Ctx) {
     let validated = serde_names::validate();
     ctx.note("oracle_fixtures_validated", json!(validated));
-    ctx.set_rule("full grid: container rename_all in {none + 8 rules} x {struct field, enum variant} x item-level attribute forms (15 for fields, 5 for variants) x 14 identifier shapes x both modes, the container attributes written in 7 rotating spellings (rename_all alone / before or after another key / in its own attribute before or after another one / beside a container-level rename / under a doc comment naming another rule), renames drawn from a pool of 20 strings; plus random types with random identifiers and random rename strings. evaluation = one item (field/variant) whose wire name is compared; non-trivial = container rule present or item-level attribute present; distinct by (rule, kind, form, identifier, rename, mode)");
+    ctx.set_rule("full grid: container rename_all in {none + 8 rules} x {struct field, enum variant} x item-level attribute forms (15 for fields, 5 for variants) x 14 identifier shapes x both modes, field visibility rotating over pub / private / pub(crate), the container attributes written in 7 rotating spellings (rename_all alone / before or after another key / in its own attribute before or after another one / beside a container-level rename / under a doc comment naming another rule), renames drawn from a pool of 20 strings; plus random types with random identifiers and random rename strings. evaluation = one item (field/variant) whose wire name is compared; non-trivial = container rule present or item-level attribute present; distinct by (rule, kind, form, identifier, rename, mode)");
     ctx.set_exhaustive(false);
     ctx.assume("expected names come from a port of serde_derive's case rules, validated at start-up against types compiled with the real serde_derive");
     ctx.assume("default_field_case stays at its default (snake_case = identity)");
